@@ -281,7 +281,7 @@ def check(pid, tier, seed):
             if a.startswith(("RUNNER-ERROR", "UNKNOWN-FUNCTION")) or m.startswith(("DRIVER-ERROR", "UNKNOWN-FUNCTION")):
                 broken.append({"what": "harness", "detail": f"{c.fn}: impl={a} model={m}"})
                 continue
-            if a != m:
+            if not props.agree(c, a, m):
                 bs["disagreements"] += 1
                 rec = {"property": pid, "kind": "input", "stream": c.tag, "check": c.kind, "call": c.fn,
                        "args": c.args, "args_shown": [props.show_arg(x) for x in c.args],
